@@ -169,7 +169,7 @@ func runSync(name string, args []string, out, errOut io.Writer) error {
 		return err
 	}
 
-	if err := indexRepositories(repositories, gitindex.Options{
+	if err := indexRepositories(repositories, actions, gitindex.Options{
 		BuildOptions:       config.buildOptions,
 		Branches:           splitBranches(config.branches),
 		BranchPrefix:       config.branchPrefix,
